@@ -316,6 +316,8 @@ def random_inputs(seed, count):
 # ---- replay of a recorded violation on the current tree -------------------------------------------
 def replay(j):
     rp = j.get("replay", {})
+    if rp.get("mode") == "buf":
+        return vlib.replay_bad_done("C16", "c16_buf.cpp", "c16_buf", "literal delivered in pieces differs from memory_input", "buf")
     if "input_hex" not in rp:
         print("C16 replay: nothing to run for this record (%s)" % j.get("kind"))
         return 2
@@ -342,6 +344,7 @@ def replay(j):
 # ---- the check ----------------------------------------------------------------------------------
 def run(ctx):
     ctx.proofs("Properties_C16")
+    vlib.bad_done_stage(ctx, "c16_buf.cpp", "c16_buf", "literal delivered in pieces differs from memory_input", "buf")
     model = vlib.build_ocaml("ExtractC16", "c16_driver.ml", "c16_driver")
     src = os.path.join(vlib.VERIF, "harness", "c16_impl.cpp")
     impl = vlib.build_cpp([src], "c16_impl", flags=["-O1"])
